@@ -80,6 +80,10 @@ CLAIMS = {
                   'the observations. Input deep-equality is additionally checked on every random nested Parse case (Trace_Exec).',
              technique='TLC model checking of ZogHeap + observed ownership episodes on the real library validated by TLC', ref='5 C19, 3.7',
              note='The model is deliberately small; the binding is by observation (pointer identity, deep equality), not lock-step. Values captured by user closures are outside.'),
+ 'C15': dict(engine='Tables', text='zhttp.Request is a finite decision table (spec/Tab_C15.tla, 632 rows x 2 schema shapes): TLC checks the table-level facts of the statement (GET/HEAD never use the body; a decode failure is exactly one issue with the '
+                  'schema not run and the destination untouched; the source depends only on method and media type), emits every row, and recomputes the expected observation of every real request the harness builds and parses.',
+             technique='TLC-checked decision table + exhaustive replay of its rows as real http.Requests, validated by TLC', ref='5 C15, 3.8',
+             note='Trusted: request construction and the observation (sentinels per source, recording test, pre-filled destination).'),
 }
 NA_REASON = 'check not built yet (work in progress; DESIGN.md section 11 gives the build order)'
 checks = []
@@ -96,7 +100,7 @@ m = dict(version=1, setup_cmd='bin/setup',
                     baseline_off_cmd='cd /repo && go test -vet=off -count=1 ./...', source_commits=hook_commits, add_only=True),
          engines=[dict(name='ZogHeap', path='/verif/spec/ZogHeap.tla', serves_properties=['C19'], kind_free_text='TLA+ ownership model + observed episodes'),
                   dict(name='ZogChain', path='/verif/spec/ZogChain.tla', serves_properties=['C17'], kind_free_text='TLA+ builder-chain machine vs declarative reading + chains executed on the real builder API'),
-                  dict(name='Tables', path='/verif/spec/Tab_C18.tla', serves_properties=['C18', 'C03', 'C04', 'C20', 'C11'], kind_free_text='finite decision tables in TLA+ (Tab_C03, Tab_C04, Tab_C18): TLC checks table invariants, emits rows, validates observed outcomes'),
+                  dict(name='Tables', path='/verif/spec/Tab_C18.tla', serves_properties=['C18', 'C03', 'C04', 'C20', 'C11', 'C15'], kind_free_text='finite decision tables in TLA+ (Tab_C03, Tab_C04, Tab_C18): TLC checks table invariants, emits rows, validates observed outcomes'),
                   dict(name='ZogBuild', path='/verif/spec/ZogBuild.tla', serves_properties=['C16'], kind_free_text='TLA+ model of builder histories over Go slices with backing-array identity + trace validation'),
                   dict(name='ZogPools', path='/verif/spec/ZogPools.tla', serves_properties=['C07', 'C08'], kind_free_text='TLA+ model of pooled objects, call histories and goroutines (TLC) + history replay + TLC trace validation of pool events'),
                   dict(name='ZogExec', path='/verif/spec/ZogExec.tla', serves_properties=[p for p in props if p in CLAIMS and CLAIMS[p].get('engine', 'ZogExec') == 'ZogExec'],
